@@ -836,4 +836,91 @@ returns exactly what the leftmost-first matcher returns for the AST of
 theorem pmatch_floatRe (s : Bytes) : pmatch floatRe s = Lexer.matchFloat false s :=
   pmatch_eq_of_unique floatRe (Lexer.matchFloat false) matchFloat_prefix float_matches_iff s
 
+/-! ## what the rules admit is what the converters' syntax accepts -/
+
+theorem spanDigits_all (d : Bytes) (hd : ∀ c ∈ d, Lexer.isDigit c = true) : Lexer.spanDigits d = (d, []) := by
+  have := spanDigits_append d [] hd (by intro c t e; cases e)
+  simpa using this
+
+theorem optSign_digits (esg d3 : Bytes) (h1 : esg.length ≤ 1) (h2 : ∀ c ∈ esg, isSign c = true)
+    (hne : d3 ≠ []) (hd : ∀ c ∈ d3, Lexer.isDigit c = true) : Lexer.optSign (esg ++ d3) = (esg, d3) := by
+  apply optSign_shape esg d3 h1 h2
+  have := head_digit_not_sign d3 [] hne hd
+  simpa using this
+
+/-- the exponent part of Go's float syntax accepts `e[+-]?\d+` at the end -/
+theorem goFloat_exp_ok (neg : Bool) (mant : Nat) (k : Nat) (e : UInt8) (esg d3 : Bytes) (he : isE e = true)
+    (h1 : esg.length ≤ 1) (h2 : ∀ c ∈ esg, isSign c = true) (hne : d3 ≠ [])
+    (hd : ∀ c ∈ d3, Lexer.isDigit c = true) :
+    (if (e == 0x65 || e == 0x45) = true then
+        (let (esg', t1) := Lexer.optSign (esg ++ d3)
+         let (d3', t2) := Lexer.spanDigits t1
+         if (d3' = [] || t2 ≠ []) = true then (none : Option Lexer.FloatLit) else
+         let ev : Int := Lexer.decValFrom 0 d3'
+         some ⟨neg, mant, (if esg' == [0x2D] then -ev else ev) - (k : Int)⟩)
+      else none).isSome = true := by
+  have hE : (e == 0x65 || e == 0x45) = true := he
+  simp only [hE, if_true, optSign_digits esg d3 h1 h2 hne hd, spanDigits_all d3 hd]
+  simp [hne]
+
+theorem goFloatSyntax_shape (sg d1 t : Bytes) (hsg1 : sg.length ≤ 1) (hsg2 : ∀ c ∈ sg, c = 0x2D)
+    (hd1ne : d1 ≠ []) (hd1d : ∀ c ∈ d1, Lexer.isDigit c = true) (ht : Tail t) :
+    (Lexer.goFloatSyntax (sg ++ (d1 ++ t))).isSome = true := by
+  have hos : Lexer.optSign (sg ++ (d1 ++ t)) = (sg, d1 ++ t) :=
+    optSign_shape sg _ hsg1 (fun c hc => by rw [hsg2 c hc]; decide) (head_digit_not_sign d1 t hd1ne hd1d)
+  obtain ⟨c0, r0, ht0, hc0⟩ := Tail_head ht
+  have hsp : Lexer.spanDigits (d1 ++ t) = (d1, t) :=
+    spanDigits_append d1 t hd1d (by intro c r e; rw [ht0] at e; injection e with e1 _; rw [← e1]; exact hc0)
+  unfold Lexer.goFloatSyntax
+  simp only [hos, hsp]
+  cases ht with
+  | exp e esg d3 he h1 h2 hne hd =>
+    have hdot := (isE_props e he).2.1
+    split
+    · rename_i heq
+      injection heq with h1' _
+      rw [← h1'] at hdot
+      simp at hdot
+    · simp only [hd1ne, decide_false, Bool.false_and, Bool.false_eq_true, if_false]
+      exact goFloat_exp_ok _ _ _ e esg d3 he h1 h2 hne hd
+  | fracExp d2 e esg d3 hne2 hd2 he h1 h2 hne hd =>
+    have hE := (isE_props e he).1
+    have hsp2 : Lexer.spanDigits (d2 ++ e :: (esg ++ d3)) = (d2, e :: (esg ++ d3)) :=
+      spanDigits_append d2 _ hd2 (by intro c r hcr; injection hcr with h1 _; rw [← h1]; exact hE)
+    simp only [hsp2, hd1ne, decide_false, Bool.false_and, Bool.false_eq_true, if_false]
+    exact goFloat_exp_ok _ _ _ e esg d3 he h1 h2 hne hd
+  | frac d3 hne hd =>
+    simp only [spanDigits_all d3 hd, hd1ne, decide_false, Bool.false_and, Bool.false_eq_true, if_false]
+    rfl
+
+/-- The float rule admits only texts that Go's decimal float syntax
+(`strconv.ParseFloat`, as modelled by `goFloatSyntax`) accepts: a float token
+can only be refused by the converter for being out of range. -/
+theorem matchFloat_goSyntax (b t : Bytes) (h : Lexer.matchFloat false b = some t) :
+    (Lexer.goFloatSyntax t).isSome = true := by
+  obtain ⟨post, rfl⟩ := matchFloat_prefix _ _ h
+  obtain ⟨sg, d1, tl, rfl, hsg1, hsg2, hd1ne, hd1d, htail, _⟩ := (float_shape_iff t post).mpr h
+  exact goFloatSyntax_shape sg d1 tl hsg1 hsg2 hd1ne hd1d htail
+
+/-- Go's `strconv.ParseInt(s, 10, 64)` syntax: optional sign, then at least one
+digit, nothing else (underscores are only allowed with base 0). -/
+def goIntSyntax (s : Bytes) : Bool :=
+  let (_, r) := Lexer.optSign s
+  let (ds, rest) := Lexer.spanDigits r
+  ds ≠ [] && rest = []
+
+/-- The integer rule admits only texts of Go's decimal integer syntax. -/
+theorem matchInt_goSyntax (b t : Bytes) (h : Lexer.matchInt b = some t) : goIntSyntax t = true := by
+  obtain ⟨sg, ds, rfl, hsg, hne, hd, _⟩ := Lexer.matchInt_shape h
+  have hos : Lexer.optSign (sg ++ ds) = (sg, ds) := by
+    apply optSign_digits sg ds _ _ hne hd
+    · rcases hsg with rfl | rfl <;> simp
+    · intro c hc
+      rcases hsg with rfl | rfl
+      · simp at hc
+      · simp only [List.mem_singleton] at hc; subst hc; decide
+  unfold goIntSyntax
+  simp only [hos, spanDigits_all ds hd]
+  simp [hne]
+
 end Martian.LexerRegex
